@@ -64,6 +64,11 @@ impl PendingEvents {
         self.events.get(&id)
     }
 
+    /// Returns the ids of all pending events in increasing order.
+    pub(crate) fn ids(&self) -> Vec<McEventId> {
+        self.events.keys().copied().collect()
+    }
+
     /// Returns currently available events, i.e. not blocked by other events (see DependencyResolver).
     pub(crate) fn available_events(&self, delivery_guarantee: &EventOrderingMode) -> BTreeSet<McEventId> {
         assert!(!self.available_events.is_empty() || self.events.is_empty());
